@@ -49,6 +49,7 @@ def check_property(pid, prog, meta, tier, cache, extra_progs=(), t0=None, thorou
     known_keys = {k["key"]: k for k in known if k.get("status") == "known"}
     insts = []
     per_rule = {}
+    floor_errors = []
     for rid, floor, sel in spec["rules"]:
         res = run_rules(prog, [rid], cache)[rid]
         if sel:
@@ -60,8 +61,8 @@ def check_property(pid, prog, meta, tier, cache, extra_progs=(), t0=None, thorou
                          "undecided": sum(1 for r in res if r["verdict"] == "undecided"),
                          "floor": floor}
         if len(decided) < floor:
-            raise CheckerError("rule %s for %s decided %d instances, floor is %d (a rule matching "
-                               "too little passes vacuously; fail closed)" % (rid, pid, len(decided), floor))
+            floor_errors.append("rule %s for %s decided %d instances, floor is %d (a rule matching "
+                                "too little passes vacuously; fail closed)" % (rid, pid, len(decided), floor))
         insts += res
     # extra configurations (thorough): union, worst verdict wins
     extra_meta = []
@@ -84,6 +85,9 @@ def check_property(pid, prog, meta, tier, cache, extra_progs=(), t0=None, thorou
                                           config="%s/%s" % (m2["features"], m2["profile"]))
     viols = [r for r in insts if r["verdict"] == "violation"]
     new_viols = [r for r in viols if r["key"] not in known_keys]
+    if floor_errors and not new_viols:
+        # a definite violation is reported as such; a shrunken instance set alone is a broken check
+        raise CheckerError("; ".join(floor_errors))
     lines = []
     for r in viols:
         if r["key"] in known_keys:
